@@ -30,7 +30,7 @@
   THE TIME BUDGET (`c05_time_*`, section at the end): `FrameCollector.__time_exceeded` and the guard of `_process_frame` are
   regenerated from the source (`Extracted/CollectorTime.lean`); the clock is a script (`Clock.read k` = what the k-th
   `time_ns()` call of the collector returns), ANY function Nat → Int (not monotone, may lie before `ts`), any `ts`, any
-  budget incl. 0 and negative.  The statement does not say what the time budget is to do; what the code does is stated
+  INT budget incl. 0 and negative within `BudgetInRange` (|maxMs| < 2^32: where exact division stands for float division).  The statement does not say what the time budget is to do; what the code does is stated
   exactly (`c05_time_exact`): the clock is looked at once per selected frame on REACHING it, a frame reached within the
   budget is collected whole (the clock is not looked at again until the next frame — `c05_time_reads`, and the number of
   clock reads of the real collector is compared on every case), a frame reached after it carries no variables, and so do
@@ -226,11 +226,25 @@ theorem c05_final_stable (H : Heap) (L : Limits) (s : BState) (k : Nat) :
 section time
 open CollectorTime
 
-/-- **time budget, exactly** — for every scripted clock (any function, not assumed monotone), time stamp, budget, and
-    frame-type selection of the stack: frame `i` gets its variables collected iff it is selected and neither the reading
-    taken on reaching it nor any earlier reading was more than `maxMs` ms after the trigger's time stamp.  Refinement of the
-    sticky-flag loop (regenerated `timeExceeded` / `frameGuard`) to the stateless `Spec.collects`. -/
-theorem c05_time_exact (ck : Clock) (sels : List Bool) (i : Nat) (hi : i < sels.length) :
+/-- the range in which the exact division of `Model/TimeBase.lean` stands for CPython's float division: the budget is an int
+    of magnitude below 2^32 ms (≈ 49 days).  Argument (on paper, NOT machine-checked — there is no float model here):
+    `int / int` is correctly rounded and monotone; `maxMs` is then exactly representable; a reading over the budget has an
+    exact quotient ≥ `maxMs + 10^-6`, and half an ulp of a double below 2^32 is < 2.4·10^-7, so the rounded quotient is
+    still > `maxMs`; a reading not over it has a quotient ≤ `maxMs`, which rounding cannot lift above `maxMs`.  The clock
+    magnitude does not matter.  Outside the range the real collector differs: budget 10^13 ms, reading budget + 1 ns →
+    `1e13 > 10**13` is False, the frame IS collected (reviewer's probe).  Budgets that are not ints (0.5, True, nan, inf:
+    accepted by Python, other arithmetic; '100', None: TypeError out of `_process_frame`, the action is lost) are outside
+    the model altogether (`maxMs : Int`): ASSUMPTIONS of the check, recorded in the stream `budget-outside`. -/
+def BudgetInRange (ck : Clock) : Prop := -(2 : Int) ^ 32 < ck.maxMs ∧ ck.maxMs < (2 : Int) ^ 32
+
+/-- **time budget, exactly** — for every scripted clock (any function, not assumed monotone), time stamp, frame-type
+    selection of the stack, and every int budget IN RANGE (`BudgetInRange`: the hypothesis is not used by the proof — the
+    model's exact arithmetic holds for all ints — it delimits where the model is the code): frame `i` gets its variables
+    collected iff it is selected and neither the reading taken on reaching it nor any earlier reading was more than `maxMs` ms
+    after the trigger's time stamp.  Refinement of the sticky-flag loop (`timeExceeded`: translated statement by statement;
+    `frameGuard`: the guard expression of `_process_frame` recognised by shape, one of three templates by conjunct order) to
+    the stateless `Spec.collects`. -/
+theorem c05_time_exact (ck : Clock) (_hr : BudgetInRange ck) (sels : List Bool) (i : Nat) (hi : i < sels.length) :
     (decisions ck sels)[i]? = some (Spec.collects ck sels i) := by
   unfold decisions
   rw [initial_flag]
@@ -246,12 +260,12 @@ theorem selectedBefore_mono (sels : List Bool) {i j : Nat} (h : i ≤ j) :
 
 /-- **sticky** — once a selected frame was reached after the budget was spent (it carries no variables), no later frame
     carries variables either, whatever the clock says afterwards (it is not even looked at). -/
-theorem c05_time_sticky (ck : Clock) (sels : List Bool) (i j : Nat) (hij : i < j) (hj : j < sels.length)
+theorem c05_time_sticky (ck : Clock) (hr : BudgetInRange ck) (sels : List Bool) (i j : Nat) (hij : i < j) (hj : j < sels.length)
     (hs : sels[i]? = some true) (hd : (decisions ck sels)[i]? = some false) :
     (decisions ck sels)[j]? = some false := by
   have hi : i < sels.length := by omega
-  rw [c05_time_exact ck sels i hi] at hd
-  rw [c05_time_exact ck sels j hj]
+  rw [c05_time_exact ck hr sels i hi] at hd
+  rw [c05_time_exact ck hr sels j hj]
   simp only [Option.some.injEq] at hd ⊢
   have hsel : sels.getD i false = true := by
     rw [List.getD_eq_getElem?_getD, hs]; rfl
@@ -268,12 +282,12 @@ theorem c05_time_sticky (ck : Clock) (sels : List Bool) (i j : Nat) (hij : i < j
 
 /-- **within the budget nothing changes** — if no reading is over the budget, exactly the frames the frame type selects are
     collected. -/
-theorem c05_time_within_budget (ck : Clock) (sels : List Bool) (h : ∀ k, Spec.over ck k = false) :
+theorem c05_time_within_budget (ck : Clock) (hr : BudgetInRange ck) (sels : List Bool) (h : ∀ k, Spec.over ck k = false) :
     decisions ck sels = sels := by
   apply List.ext_getElem?
   intro i
   by_cases hi : i < sels.length
-  · rw [c05_time_exact ck sels i hi]
+  · rw [c05_time_exact ck hr sels i hi]
     have : (List.range (Spec.selectedBefore sels i + 1)).all (fun m => !Spec.over ck m) = true := by
       rw [List.all_eq_true]; intro m _; simp [h m]
     simp [Spec.collects, this, List.getD_eq_getElem?_getD, List.getElem?_eq_getElem hi]
@@ -282,9 +296,12 @@ theorem c05_time_within_budget (ck : Clock) (sels : List Bool) (h : ∀ k, Spec.
       unfold decisions; rw [decisionsFrom_length]; exact h1
     rw [List.getElem?_eq_none h1, List.getElem?_eq_none h2]
 
-/-- **one look at the clock per frame** — the collector reads the clock once for every frame it collects, plus at most once
-    more (the reading that found the budget spent), and never more often than there are selected frames: nothing is read
-    while a frame is being collected, so no frame is cut half-way by the time budget. -/
+/-- model lemma: in the glue `decisionsFrom` (which contains the guard only — the collection of a frame is not part of it, so
+    "no read inside a frame" is true BY CONSTRUCTION of the model) the clock is read once for every frame collected, plus at
+    most once more (the reading that found the budget spent), and never more often than there are selected frames.  That the
+    REAL collector reads the clock only there rests on the extractor's shape checks (exactly one `time_ns()` in
+    `__time_exceeded`, `__time_exceeded` called only in the guard of `_process_frame`, the guard enclosing the whole collection)
+    and on the comparison of the number of clock reads of the real collector with `readsUsed` on every generated case. -/
 theorem c05_time_reads (ck : Clock) (sels : List Bool) :
     (decisions ck sels).count true ≤ readsUsed ck sels ∧
     readsUsed ck sels ≤ (decisions ck sels).count true + 1 ∧
@@ -296,10 +313,10 @@ theorem c05_time_reads (ck : Clock) (sels : List Bool) :
   simp only [Nat.zero_add, Bool.false_eq_true, if_false, Nat.add_zero] at h1 h2
   exact ⟨h1.1, h1.2, h2⟩
 
-/-- **frames reached after the budget carry no variables, the others are whole** — in the frame collection of an action
-    run against a scripted clock: one variable list per frame of the stack, and the list of a frame that `Spec.collects`
-    rejects is empty. -/
-theorem c05_time_frames (H : Heap) (L : Limits) (ck : Clock) (fs : List TFrame) (c : Cache) (t : List Entry)
+/-- **frames reached after the budget carry no variables** — in the frame collection of an action run against a scripted
+    clock: one variable list per frame of the stack, and the list of a frame that `Spec.collects` rejects is empty.  (That an
+    ACCEPTED frame is collected whole is not stated here: it is what the check's oracle `judge_frames` measures.) -/
+theorem c05_time_frames (H : Heap) (L : Limits) (ck : Clock) (hr : BudgetInRange ck) (fs : List TFrame) (c : Cache) (t : List Entry)
     (hok : (collectFrames H L (frameIns ck fs) c t).failed = none) :
     (collectFrames H L (frameIns ck fs) c t).frames.length = fs.length ∧
     ∀ i, i < fs.length → Spec.collects ck (fs.map (·.selected)) i = false →
@@ -310,13 +327,34 @@ theorem c05_time_frames (H : Heap) (L : Limits) (ck : Clock) (fs : List TFrame) 
   refine ⟨by rw [h1, hlen], ?_⟩
   intro i hi hc
   apply h2
-  have hd := c05_time_exact ck (fs.map (·.selected)) i (by simpa using hi)
+  have hd := c05_time_exact ck hr (fs.map (·.selected)) i (by simpa using hi)
   have hdi : i < (decisions ck (fs.map (·.selected))).length := by
     unfold decisions; rw [decisionsFrom_length]; simpa using hi
   rw [List.getElem?_eq_getElem hdi, hc] at hd
   simp only [frameIns, List.getElem?_zipWith, List.getElem?_eq_getElem hi, List.getElem?_eq_getElem hdi]
   simp only [Option.some.injEq] at hd
   simp [hd]
+
+/-- tripwire: the constants of the budget — read from the action config under this key with this default (ms), and a NEW
+    `FrameCollector` (hence a clear flag) for every action -/
+theorem c05_time_constants : Extracted.CollectorTime.maxTpProcessTimeKey = "MAX_TP_PROCESS_TIME" ∧
+    Extracted.CollectorTime.maxTpProcessTimeDefault = 100 ∧ Extracted.CollectorTime.collectorPerAction = true ∧
+    Extracted.CollectorTime.initialExceeded = false := by decide
+
+/-- model lemma: the actions of one trace event (`timedActions`, what the driver runs): the first action is decided by
+    `decisions` with its OWN budget and a clear flag against the clock from the current reading on; the next action starts at
+    the reading after the ones the first consumed — own flag, shared clock. -/
+theorem c05_time_actions (ts : Int) (script : Nat → Int) (off : Nat) (a : TimedAction) (as : List TimedAction) :
+    let ck : Clock := ⟨ts, a.maxMs, fun k => script (off + k)⟩
+    (timedActions ts script off (a :: as)).1 =
+      ⟨a.limits, frameIns ck a.frames, a.watches⟩ ::
+        (timedActions ts script (off + readsUsed ck (a.frames.map (·.selected))) as).1 := rfl
+
+/-- two actions, 100 ms each, script 5 ns, 200 ms, 5 ns: the first finds its budget spent at its second frame; the second
+    starts with a clear flag and a clock that went back: it collects both frames -/
+example : (timedActions 0 (fun k => [5, 200000000, 5].getD k 5) 0
+      [⟨⟨1, 1, 1, 1⟩, [⟨0, true⟩, ⟨0, true⟩], [], 100⟩, ⟨⟨1, 1, 1, 1⟩, [⟨0, true⟩, ⟨0, true⟩], [], 100⟩]).1.map
+        (fun a => a.frames.map (·.collect)) = [[true, false], [true, true]] := by decide
 
 /-- non-vacuity: frame type all_frame over 4 frames, budget 100 ms, readings 5 ms, 100 ms (still inside: the comparison is
     strict), 100 ms + 1 ns (spent), then a clock that went BACK to 0: frames 0 and 1 collected, 2 and 3 not; 3 readings. -/
